@@ -373,6 +373,10 @@ class Union:
             cg = generate_checking_code(t)
             bound = getattr(t, "bound", None)
             if bound is None:
+                if hasattr(t, "_handler"):
+                    # A nested union / intersection: its own checking code
+                    # assumes that the bounds of its members hold
+                    return CodeGen("isinstance({arg}, {member})", member=t)
                 return cg
             return CodeGen(
                 "(isinstance({arg}, {member_bound}) and " + cg.template + ")",
